@@ -1274,8 +1274,12 @@ class Intersection(Operation):
            global_state: pg.geno.AttributeDict,
            step: int = 0) -> List[Any]:
     id_count = {}
+    # NOTE: the outputs are kept alive until the intersection is computed:
+    # `id` is unique only among objects that exist at the same time.
+    other_outputs = []
     for op in self._ops[1:]:
-      for dna in op(inputs, global_state=global_state, step=step):
+      other_outputs.append(op(inputs, global_state=global_state, step=step))
+      for dna in other_outputs[-1]:
         dna_id = id(dna)
         if dna_id not in id_count:
           id_count[dna_id] = 0
@@ -1324,8 +1328,12 @@ class Difference(Operation):
            global_state: pg.geno.AttributeDict,
            step: int = 0) -> List[Any]:
     excluded_ids = set()
+    # NOTE: the excluded items are kept alive until the difference is computed:
+    # `id` is unique only among objects that exist at the same time.
+    excluded = []
     for op in self._ops[1:]:
-      for dna in op(inputs, global_state=global_state, step=step):
+      excluded.append(op(inputs, global_state=global_state, step=step))
+      for dna in excluded[-1]:
         excluded_ids.add(id(dna))
     results = []
     for dna in self._ops[0](inputs, global_state=global_state, step=step):
